@@ -370,16 +370,25 @@ def evaluate_cases(stage, pid, prop, cases, jobs=1):
     outs = run_worker(stage, pid, cases, jobs=jobs, timeout=getattr(prop, "WORKER_TIMEOUT", 3600))
     terms, idx = [], []
     for i, (c, o) in enumerate(zip(cases, outs)):
-        t = None
-        if not (isinstance(o, dict) and "exc" in o):
-            t = prop.emit(c, o)
-        if t is not None:
-            terms.append(t)
-            idx.append(i)
+        if isinstance(o, dict) and "exc" in o:
+            continue
+        parts = prop.expand(c, o) if hasattr(prop, "expand") else [(c, o)]
+        for (cc, oo) in parts:
+            t = prop.emit(cc, oo)
+            if t is not None:
+                terms.append(t)
+                idx.append(i)
     flags, logs = coq_eval(pid, terms, shard=getattr(prop, "SHARD", 300),
                            extra_imports=getattr(prop, "COQ_IMPORTS", ""))
     res = []
-    fl = {i: f for i, f in zip(idx, flags)}
+    fl = {}
+    for i, f in zip(idx, flags):        # a case expanded into several Coq cases passes iff all of them do
+        if i not in fl:
+            fl[i] = f
+        elif f is None or fl[i] is None:
+            fl[i] = None
+        else:
+            fl[i] = fl[i] & f
     for i, (c, o) in enumerate(zip(cases, outs)):
         if i in fl:
             f = fl[i]
